@@ -1421,19 +1421,11 @@ namespace awkward {
       for (auto content : contents_) {
         contents.push_back(content.get()->rpad(target, posaxis, depth));
       }
-      if (contents.empty()) {
-        return std::make_shared<RecordArray>(identities_,
-                                             parameters_,
-                                             contents,
-                                             recordlookup_,
-                                             length_);
-      }
-      else {
-        return std::make_shared<RecordArray>(identities_,
-                                             parameters_,
-                                             contents,
-                                             recordlookup_);
-      }
+      return std::make_shared<RecordArray>(identities_,
+                                           parameters_,
+                                           contents,
+                                           recordlookup_,
+                                           length_);
     }
   }
 
@@ -1451,19 +1443,11 @@ namespace awkward {
         contents.push_back(
           content.get()->rpad_and_clip(target, posaxis, depth));
       }
-      if (contents.empty()) {
-        return std::make_shared<RecordArray>(identities_,
-                                             parameters_,
-                                             contents,
-                                             recordlookup_,
-                                             length_);
-      }
-      else {
-        return std::make_shared<RecordArray>(identities_,
-                                             parameters_,
-                                             contents,
-                                             recordlookup_);
-      }
+      return std::make_shared<RecordArray>(identities_,
+                                           parameters_,
+                                           contents,
+                                           recordlookup_,
+                                           length_);
     }
   }
 
